@@ -126,13 +126,18 @@ def cmd_run(args):
     flavours = cfg["flavours"][tier] if isinstance(cfg["flavours"], dict) else cfg["flavours"]
     agg = {"stat": {}, "outcomes": {}, "samples": {}, "fails": [], "info": {}, "incomplete": [], "sections": []}
     harness_errors = []
+    bins = {}
     per_flavour_deadline = deadline / max(1, len(flavours))
-    for fl in flavours:
-        binary = build(repo, tag, fl, cfg["bin"])
+    for fl_entry in flavours:
+        # "flavour" or "flavour:bin" (a supplementary harness with its own binary)
+        fl, _, alt_bin = fl_entry.partition(":")
+        this_bin = alt_bin or cfg["bin"]
+        bins[fl_entry] = (fl, this_bin)
+        binary = build(repo, tag, fl, this_bin)
         if binary is None:
             print("HARNESS-ERROR: build failed")
             return 2
-        out = os.path.join(ROOT, "build", "out", "%s-%s-%s.txt" % (pid, tag, fl))
+        out = os.path.join(ROOT, "build", "out", "%s-%s-%s.txt" % (pid, tag, fl_entry.replace(":", "-")))
         if os.path.exists(out):
             os.remove(out)
         cmd = [binary, "--tier", tier, "--out", out, "--deadline", str(per_flavour_deadline), "--seed", str(seed)]
@@ -140,25 +145,26 @@ def cmd_run(args):
             cmd += ["--only", args.only]
         r = subprocess.run(cmd, cwd=ROOT, stdout=subprocess.PIPE, stderr=subprocess.PIPE, text=True, errors="replace")
         res = parse_out(out)
+        lab = fl if not alt_bin else fl + "-" + alt_bin
         if r.returncode != 0 or not res["ended"]:
-            harness_errors.append("harness %s (%s) exit %d: %s" % (cfg["bin"], fl, r.returncode, (r.stderr or "")[-1500:]))
-        harness_errors += ["%s: %s" % (fl, e) for e in res["errors"]]
+            harness_errors.append("harness %s (%s) exit %d: %s" % (this_bin, fl, r.returncode, (r.stderr or "")[-1500:]))
+        harness_errors += ["%s: %s" % (lab, e) for e in res["errors"]]
         for k, v in res["stat"].items():
-            agg["stat"][fl + ":" + k] = v
+            agg["stat"][lab + ":" + k] = v
         for s, o in res["outcomes"].items():
-            agg["outcomes"].setdefault(fl + ":" + s, set()).update(o)
+            agg["outcomes"].setdefault(lab + ":" + s, set()).update(o)
         for s, o in res["samples"].items():
-            agg["samples"].setdefault(fl + ":" + s, []).extend(o[:3])
+            agg["samples"].setdefault(lab + ":" + s, []).extend(o[:3])
         for (case, sig, detail) in res["fails"]:
-            agg["fails"].append((fl, case, sig, detail))
-        agg["info"].update({fl + ":" + k: v for k, v in res["info"].items()})
-        agg["incomplete"] += [fl + ":" + x for x in res["incomplete"]]
-        agg["sections"] += [(fl + ":" + n, w) for (n, w) in res["sections"]]
+            agg["fails"].append((fl_entry, case, sig, detail))
+        agg["info"].update({lab + ":" + k: v for k, v in res["info"].items()})
+        agg["incomplete"] += [lab + ":" + x for x in res["incomplete"]]
+        agg["sections"] += [(lab + ":" + n, w) for (n, w) in res["sections"]]
         if not args.only:
             for s, n in res["require"].items():
                 got = len(res["outcomes"].get(s, ()))
                 if got < n and not any(x.startswith(s) for x in res["incomplete"]):
-                    harness_errors.append("vacuity: section %s:%s produced %d distinct outcomes, needs >= %d" % (fl, s, got, n))
+                    harness_errors.append("vacuity: section %s:%s produced %d distinct outcomes, needs >= %d" % (lab, s, got, n))
 
     # ---- classify failures by signature
     by_sig = {}
@@ -177,23 +183,38 @@ def cmd_run(args):
             print("KNOWN-FINDING: property=%s sig=%s %s [%d cases, e.g. %s (%s): %s]" % (pid, sig, known[sig], e["count"], case, fl, detail[:300]))
             continue
         # replay twice before reporting
-        binary = os.path.join(ROOT, "build", tag, fl, "bin", cfg["bin"])
+        rfl, rbin = bins[fl]
+        binary = os.path.join(ROOT, "build", tag, rfl, "bin", rbin)
         ok = True
-        for _ in range(2):
-            rc, sigs, lines, err = replay_case(binary, case)
-            if rc == 2:
-                harness_errors.append("replay of %s (%s) ended with a harness error: %s" % (case, fl, err[-800:]))
+        if ":" in fl:
+            # supplementary free-running pass (e.g. ThreadSanitizer): inherently schedule dependent, so a failure
+            # is reported only if it can be reproduced at least twice within a few re-runs
+            hits = 0
+            for _ in range(8):
+                rc, sigs, lines, err = replay_case(binary, case)
+                if sig in sigs:
+                    hits += 1
+                if hits >= 2:
+                    break
+            if hits < 2:
+                print("SUPPLEMENTARY-UNCONFIRMED: property=%s sig=%s case=%s (%s) seen once, reproduced %d time(s) in 8 re-runs; not reported" % (pid, sig, case, fl, hits))
                 ok = False
-                break
-            if sig not in sigs:
-                harness_errors.append("NONDETERMINISTIC: replay of %s (%s) did not reproduce sig %s (got %s)" % (case, fl, sig, sigs))
-                ok = False
-                break
+        else:
+            for _ in range(2):
+                rc, sigs, lines, err = replay_case(binary, case)
+                if rc == 2:
+                    harness_errors.append("replay of %s (%s) ended with a harness error: %s" % (case, fl, err[-800:]))
+                    ok = False
+                    break
+                if sig not in sigs:
+                    harness_errors.append("NONDETERMINISTIC: replay of %s (%s) did not reproduce sig %s (got %s)" % (case, fl, sig, sigs))
+                    ok = False
+                    break
         if not ok:
             continue
         nrep += 1
         path = os.path.join("replays", "%s-%d.json" % (pid, nrep))
-        json.dump({"property": pid, "bin": cfg["bin"], "flavour": fl, "tier": tier, "case": case, "sig": sig, "detail": detail,
+        json.dump({"property": pid, "bin": rbin, "flavour": rfl, "tier": tier, "case": case, "sig": sig, "detail": detail,
                    "cases_with_this_sig": e["count"], "repo": repo,
                    "how": "python3 verif.py replay %s" % path}, open(os.path.join(ROOT, path), "w"), indent=1)
         violations.append((sig, path, case, detail))
@@ -254,8 +275,7 @@ def cmd_run(args):
 def cmd_replay(args):
     rp = json.load(open(args.path))
     repo, tag = repo_and_tag(args.repo)
-    cfg = CHECKS[rp["property"]]
-    binary = build(repo, tag, rp["flavour"], cfg["bin"])
+    binary = build(repo, tag, rp["flavour"], rp["bin"])
     if binary is None:
         return 2
     rc, sigs, lines, err = replay_case(binary, rp["case"])
